@@ -1,1 +1,294 @@
-pub fn run(_seed: u64, _thorough: bool) -> u64 { 0 }
+//! C08 bounded checker, last clause: "account snapshots and trade queries reflect exactly the accepted orders".
+//! Drives the REAL `MockExchange` (a) through its `run()` loop with OpenOrder / FetchTrades / FetchAccountSnapshot /
+//! FetchBalances requests over the request channel, with advancing (and tying) request times under tokio's paused clock,
+//! and (b) directly (`open_order` + `ack_trade` as `run()` does, then `AccountState::trades(time_since)` and
+//! `account_snapshot()`), and compares with a ledger of the accepted orders.
+use crate::{eng::Rng, report};
+use barter_execution::{
+    UnindexedAccountSnapshot,
+    balance::{AssetBalance, Balance},
+    client::mock::MockExecutionConfig,
+    exchange::mock::{MockExchange, request::MockExchangeRequest},
+    order::{
+        OrderEvent, OrderKey, OrderKind, TimeInForce,
+        id::{ClientOrderId, StrategyId},
+        request::RequestOpen,
+    },
+    trade::Trade,
+};
+use barter_instrument::{
+    Side, Underlying,
+    asset::{QuoteAsset, name::AssetNameExchange},
+    exchange::ExchangeId,
+    instrument::{Instrument, name::InstrumentNameExchange},
+};
+use chrono::{DateTime, TimeDelta, Utc};
+use fnv::FnvHashMap;
+use rust_decimal::Decimal;
+use rust_decimal_macros::dec;
+use std::collections::HashSet;
+use tokio::sync::{broadcast, mpsc, oneshot};
+
+const L_INCLUSIVE: &str = "C08.bounded.trades_query_inclusive_at_fill_time";
+const L_EXACT: &str = "C08.bounded.trades_query_exactly_the_accepted_fills";
+const L_DIRECT: &str = "C08.bounded.trades_query_account_state";
+const L_SNAP_BAL: &str = "C08.bounded.snapshot_balances_equal_ledger";
+const L_SNAP_ORD: &str = "C08.bounded.snapshot_no_resting_orders";
+const L_SNAP_FETCH: &str = "C08.bounded.snapshot_agrees_with_fetch_balances";
+
+#[derive(Clone, Copy, Debug, PartialEq, Eq)]
+enum Kind { Buy, Sell, TooBig, UnknownInstrument, Limit }
+#[derive(Clone, Copy, Debug)]
+struct Step { dt_ms: i64, kind: Kind, qty: Decimal }
+
+const PRICE: Decimal = dec!(5);
+
+fn t0() -> DateTime<Utc> { DateTime::<Utc>::from_timestamp(1_700_000_000, 0).unwrap() }
+
+fn exchange(fee: Decimal, latency_ms: u64) -> (MockExchange, mpsc::UnboundedSender<MockExchangeRequest>, broadcast::Receiver<barter_execution::UnindexedAccountEvent>) {
+    let bal = |a: &str, v: Decimal| AssetBalance { asset: AssetNameExchange::new(a), balance: Balance { total: v, free: v }, time_exchange: t0() };
+    let config = MockExecutionConfig {
+        mocked_exchange: ExchangeId::Mock,
+        initial_state: UnindexedAccountSnapshot { exchange: ExchangeId::Mock, balances: vec![bal("btc", dec!(10)), bal("usdt", dec!(100)), bal("eth", dec!(7))], instruments: vec![] },
+        latency_ms,
+        fees_percent: fee,
+    };
+    let (tx, rx) = mpsc::unbounded_channel();
+    let (etx, erx) = broadcast::channel(64);
+    let mut instruments = FnvHashMap::default();
+    instruments.insert(InstrumentNameExchange::new("BTCUSDT"), Instrument::spot(ExchangeId::Mock, "mock-btc_usdt", "BTCUSDT", Underlying::new("btc", "usdt"), None));
+    (MockExchange::new(config, rx, etx, instruments), tx, erx)
+}
+
+fn request(k: usize, s: &Step) -> barter_execution::order::request::OrderRequestOpen<ExchangeId, InstrumentNameExchange> {
+    let (side, qty, instr, kind) = match s.kind {
+        Kind::Buy => (Side::Buy, s.qty, "BTCUSDT", OrderKind::Market),
+        Kind::Sell => (Side::Sell, s.qty, "BTCUSDT", OrderKind::Market),
+        Kind::TooBig => (Side::Sell, dec!(1000), "BTCUSDT", OrderKind::Market),
+        Kind::UnknownInstrument => (Side::Buy, s.qty, "XXXUSDT", OrderKind::Market),
+        Kind::Limit => (Side::Buy, s.qty, "BTCUSDT", OrderKind::Limit),
+    };
+    OrderEvent {
+        key: OrderKey { exchange: ExchangeId::Mock, instrument: InstrumentNameExchange::new(instr), strategy: StrategyId::new("s"), cid: ClientOrderId::new(format!("c{k}")) },
+        state: RequestOpen { side, price: PRICE, quantity: qty, kind, time_in_force: TimeInForce::ImmediateOrCancel },
+    }
+}
+
+/// ledger of the accepted orders
+struct Ledger { btc: Decimal, usdt: Decimal, fills: Vec<(DateTime<Utc>, Side, Decimal, Decimal)> }
+impl Ledger {
+    fn new() -> Self { Ledger { btc: dec!(10), usdt: dec!(100), fills: vec![] } }
+    /// true iff accepted
+    fn apply(&mut self, s: &Step, fee: Decimal, time: DateTime<Utc>) -> bool {
+        match s.kind {
+            Kind::Buy => {
+                let need = PRICE * s.qty * (Decimal::ONE + fee);
+                if self.usdt < need { return false; }
+                self.usdt -= need;
+                self.fills.push((time, Side::Buy, s.qty, PRICE * s.qty * fee));
+                true
+            }
+            Kind::Sell => {
+                let need = s.qty * (Decimal::ONE + fee);
+                if self.btc < need { return false; }
+                self.btc -= need;
+                self.fills.push((time, Side::Sell, s.qty, s.qty * fee * PRICE));
+                true
+            }
+            _ => false,
+        }
+    }
+    fn balances(&self) -> Vec<(String, Decimal, Decimal)> {
+        vec![("btc".to_string(), self.btc, self.btc), ("eth".to_string(), dec!(7), dec!(7)), ("usdt".to_string(), self.usdt, self.usdt)]
+    }
+}
+
+type T = Trade<QuoteAsset, InstrumentNameExchange>;
+fn brief(t: &T) -> String { format!("#{}@{}+{}ms {:?} qty={} fees={}", t.order_id.0, t.time_exchange.timestamp() - t0().timestamp(), t.time_exchange.timestamp_subsec_millis(), t.side, t.quantity, t.fees.fees) }
+fn sorted(b: impl Iterator<Item = AssetBalance<AssetNameExchange>>) -> Vec<(String, Decimal, Decimal)> {
+    let mut v: Vec<_> = b.map(|b| (b.asset.to_string(), b.balance.total, b.balance.free)).collect();
+    v.sort();
+    v
+}
+
+fn queries(times: &[DateTime<Utc>], fills: &[DateTime<Utc>]) -> Vec<DateTime<Utc>> {
+    let mut q = vec![DateTime::<Utc>::MIN_UTC, DateTime::<Utc>::MAX_UTC, t0() - TimeDelta::milliseconds(1), t0()];
+    for t in times.iter().chain(fills.iter()) {
+        q.push(*t - TimeDelta::milliseconds(1));
+        q.push(*t);
+        q.push(*t + TimeDelta::milliseconds(1));
+    }
+    q.sort();
+    q.dedup();
+    q
+}
+
+struct Checker<'a> { seen: &'a mut HashSet<&'static str>, input: String }
+impl Checker<'_> {
+    fn fail(&mut self, label: &'static str, observed: String, expected: String) { if self.seen.insert(label) { report(label, self.input.clone(), observed, expected); } }
+    /// `accepted`: the fills of the accepted orders as acknowledged in the open-order responses
+    fn trades(&mut self, path: &str, since: DateTime<Utc>, got: &[T], accepted: &[T], direct: bool) {
+        let want: Vec<&T> = accepted.iter().filter(|t| t.time_exchange >= since).collect();
+        if got.iter().collect::<Vec<_>>() != want {
+            let tie = accepted.iter().any(|t| t.time_exchange == since);
+            let label = if direct { L_DIRECT } else if tie { L_INCLUSIVE } else { L_EXACT };
+            let rel = since.signed_duration_since(t0());
+            self.fail(label, format!("{path}(time_since = t0{:+}ms) -> [{}]", rel.num_milliseconds(), got.iter().map(brief).collect::<Vec<_>>().join(", ")),
+                format!("exactly the accepted orders' fills with time_exchange >= time_since, in order: [{}]", want.iter().map(|t| brief(t)).collect::<Vec<_>>().join(", ")));
+        }
+    }
+}
+
+fn expected_trade(resp_id: &barter_execution::order::id::OrderId, time: DateTime<Utc>, side: Side, qty: Decimal, fees: Decimal) -> T {
+    Trade {
+        id: barter_execution::trade::TradeId(resp_id.0.clone()),
+        order_id: resp_id.clone(),
+        instrument: InstrumentNameExchange::new("BTCUSDT"),
+        strategy: StrategyId::new("s"),
+        time_exchange: time,
+        side,
+        price: PRICE,
+        quantity: qty,
+        fees: barter_execution::trade::AssetFees::quote_fees(fees),
+    }
+}
+
+async fn case_run_loop(steps: &[Step], fee: Decimal, latency_ms: u64, seen: &mut HashSet<&'static str>) {
+    let (ex, tx, _erx) = exchange(fee, latency_ms);
+    let handle = tokio::spawn(ex.run());
+    let half = TimeDelta::milliseconds(latency_ms as i64 / 2);
+    let mut ledger = Ledger::new();
+    let mut accepted: Vec<T> = vec![];
+    let mut times: Vec<DateTime<Utc>> = vec![];
+    let mut now = t0();
+    let input = format!("MockExchange::run, fee={fee}, latency_ms={latency_ms}, price={PRICE}, balances(btc=10, usdt=100, eth=7); open-order requests (time offset ms, kind, qty): {:?}",
+        steps.iter().scan(0i64, |t, s| { *t += s.dt_ms; Some((*t, s.kind, s.qty)) }).collect::<Vec<_>>());
+    let mut ck = Checker { seen, input };
+    for (k, s) in steps.iter().enumerate() {
+        now += TimeDelta::milliseconds(s.dt_ms);
+        let (rtx, rrx) = oneshot::channel();
+        if tx.send(MockExchangeRequest::open_order(now, rtx, request(k, s))).is_err() { return; }
+        let Ok(resp) = rrx.await else { ck.fail(L_EXACT, format!("no response to open-order request #{k}"), "a response".into()); return; };
+        let t_ex = now + half;
+        times.push(t_ex);
+        let was = ledger.fills.len();
+        let should = ledger.apply(s, fee, t_ex);
+        match (&resp.state, should) {
+            (Ok(open), true) => { let f = ledger.fills[was]; accepted.push(expected_trade(&open.id, f.0, f.1, f.2, f.3)); }
+            (Err(_), false) => {}
+            // acceptance itself is the business of the C08 open-order checks: keep the ledger in step with the exchange
+            _ => return,
+        }
+    }
+    let fill_times: Vec<DateTime<Utc>> = accepted.iter().map(|t| t.time_exchange).collect();
+    now += TimeDelta::milliseconds(1);
+    for since in queries(&times, &fill_times) {
+        let (rtx, rrx) = oneshot::channel();
+        if tx.send(MockExchangeRequest::fetch_trades(now, rtx, since)).is_err() { return; }
+        let Ok(got) = rrx.await else { return; };
+        ck.trades("FetchTrades", since, &got, &accepted, false);
+    }
+    let (rtx, rrx) = oneshot::channel();
+    if tx.send(MockExchangeRequest::fetch_account_snapshot(now, rtx)).is_err() { return; }
+    let Ok(snap) = rrx.await else { return; };
+    let got = sorted(snap.balances.iter().cloned());
+    if got != ledger.balances() || snap.exchange != ExchangeId::Mock {
+        ck.fail(L_SNAP_BAL, format!("exchange {:?}, balances (asset, total, free) {got:?}", snap.exchange), format!("exchange Mock, {:?}", ledger.balances()));
+    }
+    if snap.instruments.iter().any(|i| !i.orders.is_empty()) {
+        ck.fail(L_SNAP_ORD, format!("{:?}", snap.instruments), "every accepted (market) order is filled at once: no resting orders".into());
+    }
+    let (rtx, rrx) = oneshot::channel();
+    if tx.send(MockExchangeRequest::fetch_balances(now, rtx)).is_err() { return; }
+    let Ok(bals) = rrx.await else { return; };
+    if sorted(bals.into_iter()) != got { ck.fail(L_SNAP_FETCH, "FetchBalances differs from the snapshot taken at the same time".into(), format!("{got:?}")); }
+    drop(tx);
+    let _ = handle.await;
+}
+
+/// the same without the run loop: `open_order` + `ack_trade` (what `run()` does), then `AccountState::trades` / `account_snapshot`
+fn case_direct(steps: &[Step], fee: Decimal, seen: &mut HashSet<&'static str>) {
+    let (mut ex, _tx, _erx) = exchange(fee, 0);
+    let mut ledger = Ledger::new();
+    let mut accepted: Vec<T> = vec![];
+    let mut times = vec![];
+    let mut now = t0();
+    let input = format!("MockExchange::open_order + AccountState::ack_trade, fee={fee}, price={PRICE}, balances(btc=10, usdt=100, eth=7); open-order requests (time offset ms, kind, qty): {:?}",
+        steps.iter().scan(0i64, |t, s| { *t += s.dt_ms; Some((*t, s.kind, s.qty)) }).collect::<Vec<_>>());
+    let mut ck = Checker { seen, input };
+    for (k, s) in steps.iter().enumerate() {
+        now += TimeDelta::milliseconds(s.dt_ms);
+        ex.time_exchange_latest = now;
+        ex.account.update_time_exchange(now);
+        times.push(now);
+        let Ok((resp, notes)) = std::panic::catch_unwind(std::panic::AssertUnwindSafe(|| ex.open_order(request(k, s)))) else { return; };
+        let was = ledger.fills.len();
+        let should = ledger.apply(s, fee, now);
+        match (&resp.state, should, notes) {
+            (Ok(open), true, Some(notes)) => {
+                let f = ledger.fills[was];
+                let want = expected_trade(&open.id, f.0, f.1, f.2, f.3);
+                if notes.trade != want { ck.fail(L_DIRECT, format!("fill notified for request #{k}: {}", brief(&notes.trade)), brief(&want)); return; }
+                ex.account.ack_trade(notes.trade);
+                accepted.push(want);
+            }
+            (Err(_), false, None) => {}
+            _ => return,
+        }
+    }
+    let fill_times: Vec<DateTime<Utc>> = accepted.iter().map(|t| t.time_exchange).collect();
+    for since in queries(&times, &fill_times) {
+        let got: Vec<T> = ex.account.trades(since).cloned().collect();
+        ck.trades("AccountState::trades", since, &got, &accepted, true);
+    }
+    let snap = ex.account_snapshot();
+    let got = sorted(snap.balances.iter().cloned());
+    if got != ledger.balances() { ck.fail(L_SNAP_BAL, format!("account_snapshot() balances (asset, total, free) {got:?}"), format!("{:?}", ledger.balances())); }
+    if snap.instruments.iter().any(|i| !i.orders.is_empty()) { ck.fail(L_SNAP_ORD, format!("{:?}", snap.instruments), "no resting orders".into()); }
+}
+
+pub fn run(seed: u64, thorough: bool) -> u64 {
+    let mut seen: HashSet<&'static str> = HashSet::new();
+    let mut n = 0u64;
+    let rt = tokio::runtime::Builder::new_current_thread().enable_time().start_paused(true).build().expect("runtime");
+    let alphabet: Vec<(i64, Kind, Decimal)> = {
+        let mut v = vec![];
+        for dt in [0i64, 1, 1000] {
+            for (kind, qty) in [(Kind::Buy, dec!(1)), (Kind::Sell, dec!(2)), (Kind::TooBig, dec!(1)), (Kind::UnknownInstrument, dec!(1))] { v.push((dt, kind, qty)); }
+        }
+        v.push((1000, Kind::Limit, dec!(1)));
+        v.push((0, Kind::Buy, dec!(15))); // funded only while the quote balance lasts
+        v
+    };
+    rt.block_on(async {
+        // every sequence of requests up to a small length
+        let max_len = if thorough { 4 } else { 3 };
+        for len in 1..=max_len {
+            let total = alphabet.len().pow(len as u32);
+            for code in 0..total {
+                let mut c = code;
+                let steps: Vec<Step> = (0..len).map(|_| { let (dt_ms, kind, qty) = alphabet[c % alphabet.len()]; c /= alphabet.len(); Step { dt_ms, kind, qty } }).collect();
+                let fee = if code % 2 == 0 { dec!(0) } else { dec!(0.1) };
+                let latency = if code % 3 == 2 { 6 } else { 0 };
+                case_run_loop(&steps, fee, latency, &mut seen).await;
+                if code % 4 == 0 || thorough { case_direct(&steps, fee, &mut seen); }
+                n += 1;
+            }
+        }
+        // seeded random, longer
+        let mut rng = Rng::seeded(seed, 8);
+        for _ in 0..if thorough { 20_000 } else { 300 } {
+            let len = 2 + rng.below(9) as usize;
+            let steps: Vec<Step> = (0..len).map(|_| Step {
+                dt_ms: match rng.below(4) { 0 | 1 => 0, 2 => 1, _ => rng.below(5_000) as i64 },
+                kind: match rng.below(8) { 0 => Kind::TooBig, 1 => Kind::UnknownInstrument, 2 => Kind::Limit, 3 | 4 => Kind::Sell, _ => Kind::Buy },
+                qty: Decimal::new(1 + rng.below(40) as i64, 1),
+            }).collect();
+            let fee = [dec!(0), dec!(0.1), dec!(0.01)][rng.below(3) as usize];
+            case_run_loop(&steps, fee, [0, 0, 6, 11][rng.below(4) as usize], &mut seen).await;
+            case_direct(&steps, fee, &mut seen);
+            n += 1;
+        }
+    });
+    n
+}
